@@ -67,6 +67,7 @@ REFUSED = {'Pygments': ['- a\n  ```nosuchlang\n  x\n  ```\n', '> 1. b\n>    ~~~ 
            'LaTeX': ['- a `` ' + ''.join(chr(c) for c in range(33, 127)) + ' `` b\n']}
 SCHEME_PROGRAM = '(define x (* 2 21))\nx'
 
+VIA = [('Html', {}), ('Ast', {}), ('Html', {'process_html_tokens': False}), ('Markdown', {})]
 FAULT_KINDS = ['span-find', 'span-init', 'block-start', 'block-read', 'block-init']
 TRIGGERS = ['a `code` BOOM b `c`\n', '> x\n>\n> BOOM\n', '# h\n\nBOOM\n', '```py\ncode\n```\nBOOM\n', '<pre>\nx\n</pre>\nBOOM\n',
             '- a\n\n  BOOM\n', '> - `q`\n>\n>   BOOM\n', '#\nBOOM\n', '> BOOM\n', '| a |\n|---|\n| BOOM `c` |\n',
@@ -328,7 +329,9 @@ def run_history(ops):
                         continue
                     T = _fault_class(op['kind'])
                     try:
-                        with renderers.make('Html') as r:
+                        # the context in which the token is added by hand: a renderer with token types of its own, or one without
+                        via = VIA[op.get('via', 0) % len(VIA)]
+                        with renderers.make(*via) as r:
                             if op['kind'].startswith('span'):
                                 # the last span token type is the fallback (RawText): custom tokens go before it
                                 span_token.add_token(T, min(op['pos'], len(span_token._token_types) - 1))
@@ -418,7 +421,7 @@ def full_alphabet():
     for kind in FAULT_KINDS:
         n = 9 if kind.startswith('span') else 11
         for pos in range(0, n):
-            ops.append({'op': 'fault', 'kind': kind, 'pos': pos, 'd': pos % len(TRIGGERS)})
+            ops.append({'op': 'fault', 'kind': kind, 'pos': pos, 'd': pos % len(TRIGGERS), 'via': pos % len(VIA)})
     for d in (0, 3, 4):
         ops.append({'op': 'bare', 'd': d})
     ops.append({'op': 'scheme'})
@@ -487,7 +490,7 @@ def draw_op(t, in_context):
         name, opts = t.choice(RENDERER_OPS)
         return {'op': 'enter', 'r': name, 'opts': opts}
     if k == 'fault':
-        return {'op': 'fault', 'kind': t.choice(FAULT_KINDS), 'pos': t.below(12), 'd': t.below(len(TRIGGERS))}
+        return {'op': 'fault', 'kind': t.choice(FAULT_KINDS), 'pos': t.below(12), 'd': t.below(len(TRIGGERS)), 'via': t.below(len(VIA))}
     if k == 'bare':
         return {'op': 'bare', 'd': t.below(len(PROBES))}
     return {'op': 'scheme'}
